@@ -56,6 +56,6 @@ RECIPES = [
     ("C16", "neutral", [], E, "        kel = k[nrb:, None]\n        solout.d_static[nrb:] = gf / kel\n        solout.d_dynamic[elastic] = -avterm / kel[elastic_norb]",
      "        knr = k[nrb:]\n        solout.d_static[nrb:] = gf / knr[:, None]\n        solout.d_dynamic[elastic] = -avterm / knr[elastic_norb][:, None]", "column vector made later"),
     ("C16", "neutral", [], R, "                res.srs.ext[q] = np.fmax(res.srs.ext[q], srs_cur)", "                res.srs.ext[q] = np.fmax(srs_cur, res.srs.ext[q])", "commuted fmax"),
-    ("C16", "neutral", [], E, "            kee = k[ee]\n", "            kee = k[ee]\n            kcopy = kee.copy()\n            kcopy *= 1.0\n", "in-place operator on a private copy"),
+    ("C16", "neutral", [], E, "        kee = k[ee]\n", "        kee = k[ee]\n        kcopy = kee.copy()\n        kcopy *= 1.0\n", "in-place operator on a private copy"),
     ("C16", "neutral", [], E, "    solout.a = solout.a.copy()\n    solout.v = solout.v.copy()\n", "    solout.a = np.array(sol.a)\n    solout.v = np.array(sol.v)\n", "copy through np.array"),
 ]
